@@ -10,7 +10,7 @@
     graph.go:106-138 release         -> [g_rel_mark], [g_rel_dep]
     graph.go:141-174 addOut          -> [g_add_out]
     graph.go:176-187 handleInvalidate-> [g_handle_inv]
-    graph.go:189-200 handleRelease   -> merged into node allocation ([new_res]); see Rerunner.v *)
+    graph.go:189-200 handleRelease   -> [g_handle_rel] (for harness-made resources merged into allocation, [new_res]) *)
 From Coq Require Import List Arith Bool.
 Import ListNotations.
 
@@ -75,6 +75,8 @@ Definition add_in (x : node) (i : nat) : node :=
   mkNode (n_ins x ++ [i]) (n_out x) (n_inv x) (n_rel x) (n_hinv x) (n_hrel x) (n_cln x) (n_had x) (n_val x) (n_timer x).
 Definition set_hinv (x : node) (r : nat) : node :=
   mkNode (n_ins x) (n_out x) (n_inv x) (n_rel x) (Some r) (n_hrel x) (n_cln x) (n_had x) (n_val x) (n_timer x).
+Definition set_hrel (x : node) (h : relh) : node :=
+  mkNode (n_ins x) (n_out x) (n_inv x) (n_rel x) (n_hinv x) (Some h) (n_cln x) (n_had x) (n_val x) (n_timer x).
 Definition inc_cln (x : node) : node :=
   mkNode (n_ins x) (n_out x) (n_inv x) (n_rel x) (n_hinv x) (n_hrel x) (S (n_cln x)) (n_had x) (n_val x) (n_timer x).
 Definition add_val (x : node) (v : list (nat * nat)) : node :=
@@ -87,6 +89,13 @@ Definition new_comp : node := dnode.
 (* NewResource + Cleanup(f) on the fresh, unshared node (handleRelease's critical section cannot be
    contended and the node is not released: it stores the handler) *)
 Definition new_res (h : relh) (timer : nat) : node := mkNode [] [] false false None (Some h) 0 false [] timer.
+
+(* the fresh Resource of InvalidateAfter (util.go:11-12): the timer is armed before Cleanup is called *)
+Definition new_timer : node := mkNode [] [] false false None None 0 false [] 1.
+
+(** graph.go:189-200 handleRelease: the callback runs at once (go f()) if the node is released already *)
+Definition g_handle_rel (g : graph) (n : nat) (h : relh) : graph * bool :=
+  if n_rel (getn g n) then (setn g n (inc_cln (getn g n)), true) else (setn g n (set_hrel (getn g n) h), false).
 
 (** graph.go:77-94, the critical section of [invalidate] on a node that is not yet invalid. *)
 Definition g_inv_mark (g : graph) (n : nat) : graph := setn g n (set_inv (getn g n)).
